@@ -269,6 +269,7 @@ loop:
 				t.replaceInGrandparent(node, nil)
 			}
 			node.markDeleted()
+			t.length--
 			break loop
 		case ComparisonLess:
 			node = node.right
@@ -276,7 +277,6 @@ loop:
 			node = node.left
 		}
 	}
-	t.length--
 }
 
 func (t *treeList) findMinimum(node *treeNode) *treeNode {
